@@ -69,7 +69,7 @@ def entry_state(ex, contract, cls_names=None):
     return st0, recv, args
 
 
-def discharge(obligs, timeout_ms, fr, func):
+def discharge(obligs, timeout_ms, fr, func, realise=None):
     """prove every obligation; obligations that share an exit (same .group) are first tried as one
     conjunction on a solver that holds the path condition once (each still counts and is reported
     individually; a failing batch is split so the failing clause is named)."""
@@ -92,6 +92,11 @@ def discharge(obligs, timeout_ms, fr, func):
         if verdict == "refuted":
             d["model"] = model_to_dict(model) if model is not None else None
             d["info"] = {k: str(v) for k, v in (o.info or {}).items()}
+            if realise is not None and model is not None and not known:
+                try:
+                    d["scenario"] = realise(model)
+                except Exception as e:  # the verdict never depends on the realiser
+                    d["scenario"] = dict(unrealisable="realiser failed: %s" % e)
         if reason:
             d["reason"] = reason
         if known:
@@ -100,6 +105,13 @@ def discharge(obligs, timeout_ms, fr, func):
 
     def single(o):
         r = prove(o, timeout_ms=timeout_ms)
+        if r.verdict == "refuted" and realise is not None and getattr(realise, "hyps", None):
+            # look for a counter-model inside the reachable states (tree invariant instance, injective index)
+            o3 = Oblig(o.id, list(o.pc) + [_zb(h) for h in realise.hyps], o.goal, o.kind, o.props, o.info)
+            o3.schemas = getattr(o, "schemas", None)
+            r3 = prove(o3, timeout_ms=min(timeout_ms, 10000), use_cvc5=False)
+            if r3.verdict == "refuted":
+                r.model = r3.model
         if r.verdict == "refuted" and getattr(o, "regions", None):
             # known-finding regions: is every counterexample inside a recorded region?
             for (fid, region) in o.regions:
@@ -208,10 +220,58 @@ def verify_functional(ex, contract, timeout_ms=30000, extra_pre=None, cls_names=
         for p in st0.pc:
             s.add(p)
         fr.canary = str(s.check())
-        discharge(obligs, timeout_ms, fr, contract.qualname)
+        discharge(obligs, timeout_ms, fr, contract.qualname, realise=make_realiser(ex, contract, st0, recv, args))
         fr.stats = dict(feas_queries=ex.stats.feas_queries, feas_s=round(ex.stats.feas_time, 3), inlined=sorted(ex.stats.inlined), contracts_used=sorted(ex.stats.contracts_used))
     except Undecided as e:
         fr.undecided = str(e)
     except Exception as e:
         fr.undecided = "ENGINE-ERROR: %s\n%s" % (e, traceback.format_exc())
     return fr
+
+
+def make_realiser(ex, contract, st0, recv, args):
+    """counter-model -> scenario (JSON) for functions whose receiver is a security or a strategy"""
+    if recv is None or contract.self_cls is None:
+        return None
+    if not (ex.prog.is_subclass(contract.self_cls, "SecurityBase") or ex.prog.is_subclass(contract.self_cls, "StrategyBase")):
+        return None
+    from .concrete import sec_scenario
+
+    tag_names = {v: k for k, v in ex.schema.class_tags.items()}
+    heap0 = st0.heap.copy()
+
+    def realise(model):
+        sc = sec_scenario(model, heap0, recv, args, contract.params, ex.schema, tag_names)
+        sc["qualname"] = contract.qualname
+        return sc
+
+    # reachable-state constraints used only to pick a replayable counter-model (never to prove)
+    from .heap import idx_f
+    import z3 as _z3
+
+    hyps = []
+    h = heap0
+    is_sec = ex.prog.is_subclass(contract.self_cls, "SecurityBase")
+    par = h.get(recv, "parent") if is_sec else recv
+    rt = h.get(par, "root")
+    if is_sec:
+        hyps += [par.term != recv.term, rt.term != recv.term, h.get(recv, "_prices_set"), h.get(recv, "_bidoffer_set") == h.get(par, "_bidoffer_set"),
+                 h.get(recv, "integer_positions") == h.get(par, "integer_positions")]
+        hyps += [_z3.Not(_zb(dsl.isnan(h.get(recv, f)))) for f in ("_position", "multiplier", "_last_pos", "_outlay", "_weight", "_bidoffer_paid")]
+        hyps += [h.get(recv, "multiplier").r > 0]
+    hyps += [h.get(rt, "root").term == rt.term, h.get(par, "_bidoffer_set") == h.get(rt, "_bidoffer_set")]
+    hyps += [_z3.Not(_zb(dsl.isnan(h.get(par, f)))) for f in ("_capital", "_last_fee", "_net_flows")]
+    dts = [h.get(recv, "now").r, h.get(par, "now").r, h.get(rt, "now").r]
+    for (n, t), v in zip(contract.params, args):
+        if t == "date":
+            dts.append(v.r)
+        if t in ("float",) and hasattr(v, "nan") and v.nan is not False:
+            hyps.append(_z3.Not(v.nan))
+        if t == "optint":
+            hyps.append(_z3.Or(_zb(v.isnone), _z3.And(v.val.r >= 0, v.val.r < 50)))
+    for i, a in enumerate(dts):
+        hyps += [_z3.Or(a == 0, _z3.And(idx_f(a) >= 0, idx_f(a) < 40)), a >= 0]
+        for b in dts[i + 1:]:
+            hyps.append(_z3.Implies(a != b, idx_f(a) != idx_f(b)))
+    realise.hyps = hyps
+    return realise
